@@ -28,6 +28,7 @@ type stats struct {
 	kinds                                                map[string]bool
 	keyed, origin, element, deleteAfterSync, multiTarget bool
 	sharedServer, sharedRequest, cliChecked, retried     bool
+	cliKeyedQuery, replaceNoti                           bool
 	leaves                                               int
 }
 
@@ -53,6 +54,8 @@ func (s *stats) labels() []string {
 	add(s.sharedServer, "targets-share-an-address")
 	add(s.sharedRequest, "targets-share-a-request")
 	add(s.cliChecked, "cli-three-invocations-compared")
+	add(s.cliKeyedQuery, "cli-query-with-list-key")
+	add(s.replaceNoti, "notification-with-delete-and-updates")
 	add(s.retried, "rerun-after-slow-quiescence")
 	add(s.leaves == 0, "empty-final-state")
 	sort.Strings(l)
@@ -137,6 +140,23 @@ func reference(sc *Scenario, st *stats) map[string]interface{} {
 						}
 					}
 				}
+			case "multi":
+				// one notification: a delete and an update that the delete covers (a gNMI "replace").
+				// Its updates are applied, then its deletes; a delete never removes what the same
+				// notification wrote (same timestamp), only what was there before.
+				st.replaceNoti = true
+				own := gn.Key(append([]string{tg.Name}, opKey(o)...))
+				pat := append([]string{tg.Name}, delKeyOfMulti(o)...)
+				for k := range ref {
+					if k != own && gn.Matches(pat, gn.Unkey(k)) {
+						delete(ref, k)
+						if synced {
+							st.deleteAfterSync = true
+						}
+					}
+				}
+				ref[own] = scalarOf(o.Val)
+				st.kinds[o.Val.Kind] = true
 			}
 		}
 	}
@@ -155,6 +175,16 @@ func reference(sc *Scenario, st *stats) map[string]interface{} {
 	return ref
 }
 
+// delKeyOfMulti is the index of the delete path of a "multi" op: the first Cut elements of its update path.
+func delKeyOfMulti(o Op) []string {
+	origin := o.Origin
+	if origin == "" {
+		origin = "openconfig"
+	}
+	all := append(append([]gn.Elem{}, o.Prefix...), o.Path...)
+	return append([]string{origin}, gn.IndexOfElems(all[:o.Cut], false)...)
+}
+
 func buildScript(tg Target, id string) []*pb.SubscribeResponse {
 	var out []*pb.SubscribeResponse
 	ts := time.Now().UnixNano()
@@ -169,6 +199,12 @@ func buildScript(tg Target, id string) []*pb.SubscribeResponse {
 			out = append(out, &pb.SubscribeResponse{Response: &pb.SubscribeResponse_Update{Update: n}})
 		case "delete":
 			n := &pb.Notification{Timestamp: ts, Prefix: gn.Path("", o.Origin, nil, false, 0), Delete: []*pb.Path{gn.Path("", "", o.Path, false, 0)}}
+			out = append(out, &pb.SubscribeResponse{Response: &pb.SubscribeResponse_Update{Update: n}})
+		case "multi":
+			all := append(append([]gn.Elem{}, o.Prefix...), o.Path...)
+			n := &pb.Notification{Timestamp: ts, Prefix: gn.Path("", o.Origin, nil, false, 0),
+				Delete: []*pb.Path{gn.Path("", "", all[:o.Cut], false, 0)},
+				Update: []*pb.Update{{Path: gn.Path("", "", all, false, 0), Val: o.Val.TV()}}}
 			out = append(out, &pb.SubscribeResponse{Response: &pb.SubscribeResponse_Update{Update: n}})
 		}
 	}
@@ -351,20 +387,53 @@ func parseSingle(out string) map[string]string {
 	return res
 }
 
-func textReq(target string, query []string, mode string) string {
+func textReq(target string, query []gn.Elem, mode string) string {
 	var elems []string
 	for _, e := range query {
-		elems = append(elems, fmt.Sprintf("elem:{name:%q}", e))
+		var keys []string
+		ks := make([]string, 0, len(e.Keys))
+		for k := range e.Keys {
+			ks = append(ks, k)
+		}
+		sort.Strings(ks)
+		for _, k := range ks {
+			keys = append(keys, fmt.Sprintf(" key:{key:%q value:%q}", k, e.Keys[k]))
+		}
+		elems = append(elems, fmt.Sprintf("elem:{name:%q%s}", e.Name, strings.Join(keys, "")))
 	}
 	return fmt.Sprintf("subscribe:{prefix:{target:%q} subscription:{path:{%s}} mode:%s}", target, strings.Join(elems, " "), mode)
 }
 
+// flagQuery renders the query the way the -q flag wants it: name[key=value] elements joined by '/'.
+func flagQuery(query []gn.Elem) string {
+	var parts []string
+	for _, e := range query {
+		p := e.Name
+		ks := make([]string, 0, len(e.Keys))
+		for k := range e.Keys {
+			ks = append(ks, k)
+		}
+		sort.Strings(ks)
+		for _, k := range ks {
+			p += fmt.Sprintf("[%s=%s]", k, e.Keys[k])
+		}
+		parts = append(parts, p)
+	}
+	return strings.Join(parts, "/")
+}
+
 // checkCLI runs the CLI three ways for the same subscription and both display types.
-func checkCLI(e *env, dir, addr, target string, query []string, ref map[string]interface{}, st *stats) error {
+func checkCLI(e *env, dir, addr, target string, query []gn.Elem, ref map[string]interface{}, st *stats) error {
 	wantGroup, wantSingle := map[string]string{}, map[string]string{}
+	qidx := gn.IndexOfElems(query, false)
+	for _, el := range query {
+		if len(el.Keys) > 0 {
+			st.cliKeyedQuery = true
+		}
+	}
 	for k, v := range ref {
 		p := gn.Unkey(k)
-		if p[0] != target || !gn.Matches(append([]string{target}, query...), p) {
+		if p[0] != target || !gn.Matches(append([]string{target}, qidx...), p) {
 			continue
 		}
 		wantGroup[k] = valStr(v)
@@ -374,7 +443,7 @@ func checkCLI(e *env, dir, addr, target string, query []string, ref map[string]i
 	os.WriteFile(protoFile, []byte(textReq(target, query, "ONCE")), 0o644)
 	common := []string{"-a", addr, "-tls_skip_verify", "-timeout", "10s"}
 	styles := map[string][]string{
-		"query flags":  append([]string{"-t", target, "-q", strings.Join(query, "/"), "-qt", "once"}, common...),
+		"query flags":  append([]string{"-t", target, "-q", flagQuery(query), "-qt", "once"}, common...),
 		"inline proto": append([]string{"-proto", textReq(target, query, "ONCE")}, common...),
 		"proto file":   append([]string{"-proto_file", protoFile}, common...),
 	}
@@ -387,7 +456,7 @@ func checkCLI(e *env, dir, addr, target string, query []string, ref map[string]i
 				if len(tailErr) > 600 {
 					tailErr = tailErr[len(tailErr)-600:]
 				}
-				return &violation{"cli-failed", fmt.Sprintf("gnmi_cli (%s, display %s, target %s, query %q) failed: %v; stderr: %s", name, dt, target, query, err, tailErr)}
+				return &violation{"cli-failed", fmt.Sprintf("gnmi_cli (%s, display %s, target %s, query %q) failed: %v; stderr: %s", name, dt, target, flagQuery(query), err, tailErr)}
 			}
 			var parsed map[string]string
 			if dt == "group" {
@@ -420,7 +489,7 @@ func checkCLI(e *env, dir, addr, target string, query []string, ref map[string]i
 		}
 		for name, got := range outputs {
 			if !reflect.DeepEqual(got, want) {
-				return &violation{"cli-mismatch", fmt.Sprintf("gnmi_cli (%s, display %s, target %s, query %q) printed %v, the target's final state is %v", name, dt, target, query, renderMap(got), renderMap(want))}
+				return &violation{"cli-mismatch", fmt.Sprintf("gnmi_cli (%s, display %s, target %s, query %q) printed %v, the target's final state is %v", name, dt, target, flagQuery(query), renderMap(got), renderMap(want))}
 			}
 		}
 	}
@@ -527,29 +596,34 @@ func runOnce(e *env, workDir string, sc *Scenario, st *stats) error {
 	}
 	// observer (b): the CLI binary, after (a) saw every sentinel
 	tg := sc.Targets[0]
-	if err := checkCLI(e, dir, col.addr, tg.Name, []string{"*"}, ref, st); err != nil {
+	if err := checkCLI(e, dir, col.addr, tg.Name, []gn.Elem{{Name: "*"}}, ref, st); err != nil {
 		return err
 	}
-	// a subtree query: origin + first element of some leaf
-	var ks []string
-	for k := range ref {
-		if gn.Unkey(k)[0] == tg.Name && len(gn.Unkey(k)) >= 3 {
-			ks = append(ks, k)
+	// a subtree query: origin + the first element (with its list keys) of some update
+	var cands [][]gn.Elem
+	for _, o := range tg.Ops {
+		if o.Kind != "update" && o.Kind != "multi" {
+			continue
+		}
+		ups := []Op{o}
+		for _, u := range ups {
+			if u.Element {
+				continue
+			}
+			all := append(append([]gn.Elem{}, u.Prefix...), u.Path...)
+			if len(all) == 0 {
+				continue
+			}
+			origin := u.Origin
+			if origin == "" {
+				origin = "openconfig"
+			}
+			cands = append(cands, []gn.Elem{{Name: origin}, all[0]})
 		}
 	}
-	sort.Strings(ks)
-	if len(ks) > 0 {
-		p := gn.Unkey(ks[sc.Subtree%len(ks)])
-		ok := true
-		for _, e := range p[1:3] {
-			if strings.ContainsAny(e, "/[], ") || e == "" {
-				ok = false
-			}
-		}
-		if ok {
-			if err := checkCLI(e, dir, col.addr, tg.Name, p[1:3], ref, st); err != nil {
-				return err
-			}
+	if len(cands) > 0 {
+		if err := checkCLI(e, dir, col.addr, tg.Name, cands[sc.Subtree%len(cands)], ref, st); err != nil {
+			return err
 		}
 	}
 	return nil
